@@ -297,6 +297,102 @@ static void wlThen() {
       sim_fail("then:never-run", "continuation %d ran %d times", i, contRuns[(size_t)i]);
 }
 
+// several continuations attached to ONE future, by one or more threads, while it completes: every
+// one of them must run exactly once, after the antecedent is ready (a continuation stranded in the
+// then-chain shows as a get() that never returns)
+static int g_fanPending;
+static void fanHangKey(char* buf, size_t n) {
+  snprintf(buf, n, g_fanPending ? "continuation-never-run" : "other");
+}
+static void wlThenFanout() {
+  int nThreads = range(1, 3);
+  int nReg = range(1, 3);
+  int schedKind = (int)pick(3); // 0 pool 1 immediate 2 CTS
+  bool asyncPol = chance(1, 2);
+  int work = range(0, 10);
+  sim_note("pool", nThreads);
+  sim_note("registrars", nReg);
+  sim_note("sched", schedKind);
+  dispenso::ThreadPool pool((size_t)nThreads, (size_t)(chance(1, 3) ? 1 : 32));
+  dispenso::ConcurrentTaskSet cts(pool);
+  dispenso::ImmediateInvoker imm;
+  dispenso::NewThreadInvoker nti;
+  static Src src;
+  src = Src();
+  static int runs[16];
+  memset(runs, 0, sizeof runs);
+  g_fanPending = 0;
+  sim_set_hang_keyer(fanHangKey);
+  auto antecedent = [work]() {
+    return [work]() {
+      sim_work(work);
+      src.runs++;
+      src.done = true;
+      return 1;
+    };
+  };
+  dispenso::Future<int> first = chance(1, 2) ? dispenso::Future<int>(antecedent(), nti)
+                                             : dispenso::Future<int>(antecedent(), pool, std::launch::async);
+  std::vector<std::vector<dispenso::Future<int>>> results((size_t)nReg);
+  std::vector<std::thread> regs;
+  int ks[3], delays[3], total = 0;
+  for (int t = 0; t < nReg; ++t) {
+    ks[t] = range(1, 3);
+    delays[t] = range(0, 8);
+    total += ks[t];
+  }
+  // nobody calls get()/wait() on a continuation's future before every continuation has run by
+  // itself: a waiter would run a stranded continuation inline and hide that it was never dispatched
+  static SimLatch allRan;
+  allRan = SimLatch(total);
+  int slot = 0;
+  for (int t = 0; t < nReg; ++t) {
+    int k = ks[t], delay = delays[t];
+    int base = slot;
+    slot += k;
+    auto body = [&, t, k, delay, base](dispenso::Future<int> mine) {
+      sim_work(delay);
+      for (int j = 0; j < k; ++j) {
+        int id = base + j;
+        auto cont = [id](dispenso::Future<int>&& ante) {
+          if (runs[id]++ > 0)
+            sim_fail("then-fanout:dup-run", "continuation %d ran twice", id);
+          if (!ante.is_ready() || !src.done)
+            sim_fail("then-fanout:antecedent-not-ready", "continuation %d started while its antecedent is not ready", id);
+          sim_work(1);
+          int v = ante.get() + id;
+          allRan.countDown();
+          return v;
+        };
+        auto pol = asyncPol ? std::launch::async : dispenso::kNotAsync;
+        results[(size_t)t].push_back(schedKind == 0 ? mine.then(cont, pool, pol)
+                                                    : (schedKind == 1 ? mine.then(cont, imm, pol) : mine.then(cont, cts, pol)));
+      }
+    };
+    if (t == 0)
+      body(first); // the creating thread registers too
+    else
+      regs.emplace_back(body, first);
+  }
+  for (auto& th : regs)
+    th.join();
+  g_fanPending = 1;
+  allRan.wait();
+  int id = 0;
+  for (auto& v : results)
+    for (auto& f : v) {
+      int got = f.get();
+      if (got != 1 + id)
+        sim_fail("then-fanout:wrong-value", "continuation %d produced %d", id, got);
+      ++id;
+    }
+  g_fanPending = 0;
+  cts.wait();
+  for (int i = 0; i < slot; ++i)
+    if (runs[i] != 1)
+      sim_fail("then-fanout:never-run", "continuation %d ran %d times", i, runs[i]);
+}
+
 static void wlWhen() {
   int nThreads = range(0, 3);
   int n = range(0, 5);
@@ -530,6 +626,7 @@ static void wlTimedFuture() {
 
 HX_WORKLOAD("C18", "future", wlFuture, SF_ALL, 4000000, 4000000, 1);
 HX_WORKLOAD("C19", "then", wlThen, SF_ALL, 4000000, 4000000, 1);
+HX_WORKLOAD("C19", "then-fanout", wlThenFanout, SF_ALL, 400000, 400000, 3);
 HX_WORKLOAD("C19", "when", wlWhen, SF_ALL, 4000000, 4000000, 1);
 HX_WORKLOAD("C20", "timed-event", wlTimedEvent, SF_ALL, 4000000, 4000000, 1);
 HX_WORKLOAD("C20", "timed-future", wlTimedFuture, SF_ALL, 4000000, 4000000, 1);
